@@ -66,7 +66,9 @@ func gramD3() *Gram {
 func textsD3(maxLen int) []string {
 	t := texts("a \n", maxLen)
 	// a few \r\n layouts for `line end` (footnote **)
-	return append(t, "\r", "a\r", "\r\n", "a\r\n", "a\r\na", "\r\na", "a\ra", "a \r\n a")
+	t = append(t, "\r", "a\r", "\r\n", "a\r\n", "a\r\na", "\r\na", "a\ra", "a \r\n a")
+	// bytes >= 0x80 are not word characters (the engine works on bytes; so do the documented classes)
+	return append(t, "\xe9", "a\xe9", "\xe9a", "a\xc3\xa9 a", "\xaaa \xb5", "a\xff", "\xc0a\xd6", "a \xf8a")
 }
 
 // D4 captures / back-references
